@@ -62,7 +62,7 @@ def run(ctx):
     Ms = [0.2, 1, 2.5, 4.5, 6, 8, 12]
     Wf = [0, 1e-9, 1e-3, 0.05, 0.11, 0.3, 0.5, 0.9, 1.5]
     lat = [(T, M, M * w) for T in Ts for M in Ms for w in Wf]
-    n = len(lat) + (400 if ctx.tier == 'quick' else 12000)
+    n = len(lat) + (400 if ctx.tier == 'quick' else 40000)
     for cid, rng in ctx.cases([('t', i) for i in range(n)]):
         if cid[1] < len(lat):
             T, M, W = lat[cid[1]]
@@ -92,7 +92,7 @@ def run(ctx):
         ctx.case_done(class_key=('invalid', 'TMW'[which]), nontrivial=True, distinct_key=core.digest(T, M, W))
     # ---- parameters derived from data ---------------------------------------------
     path = os.path.join(ctx.tmpdir, 'c18.fcs')
-    for cid, rng in ctx.cases([('data', i) for i in range(150 if ctx.tier == 'quick' else 3000)]):
+    for cid, rng in ctx.cases([('data', i) for i in range(150 if ctx.tier == 'quick' else 10000)]):
         kind = int(rng.integers(3))
         nlist = int(rng.integers(1, 4))
         datas, ys, rk = [], [], []
